@@ -30,16 +30,18 @@ def h_inj(env):
     thresha, ff = party.thresha, party.finfields
     env.encoded(thresha.random_split)
     F = ff.GF(p)
-    s = env.fresh('s', 0, p)
-    sh1 = thresha.random_split(F, [s], t, m)
-    sh2 = thresha.random_split(F, [F(s)], t, m)
-    env.check('randbelow_calls', party.n_randbelow == 2 * t)
+    # two secrets dealt in ONE call, twice: the joint view of a coalition over both secrets must determine all 2t coefficients
+    s = [env.fresh('s0', 0, p), env.fresh('s1', 0, p)]
+    sh1 = thresha.random_split(F, list(s), t, m)
+    sh2 = thresha.random_split(F, [F(s[0]), F(s[1])], t, m)
+    n = 2
+    env.check('randbelow_calls', party.n_randbelow == 2 * t * n)
     env.check('randbelow_bound', all(b == F.order for b in party.randbelow_log))
-    c1 = [env.var(f'rb_p0_{j+1}') for j in range(t)]
-    c2 = [env.var(f'rb_p0_{t+j+1}') for j in range(t)]
+    c1 = [env.var(f'rb_p0_{j+1}') for j in range(t * n)]
+    c2 = [env.var(f'rb_p0_{t*n+j+1}') for j in range(t * n)]
     same_c = env.all(a == b for a, b in zip(c1, c2))
     for T in itertools.combinations(range(m), t):
-        same_view = env.all(sh1[j][0] == sh2[j][0] for j in T)
+        same_view = env.all(sh1[j][h] == sh2[j][h] for j in T for h in range(n))
         env.check(f'injective{T}', env.implies(same_view, same_c))
     # a share is a function of the secret alone only if t == 0: with t >= 1 each single share takes
     # different values for some pair of coefficient vectors (reachability of the premise's negation)
